@@ -350,9 +350,13 @@ def rule_nceform(ctx):
             zm, zu = z.a[1], z.a[2]
             # uniform: log2(contingency.shape[dim]); marginal: entropy(contingency.sum(axis=axis_marg))
             u_ok = zu.op == "call" and call_name(zu) == "np.log2" and zu.a[1][0].op == "sub" and zu.a[1][0].a[0].op == "attr" and zu.a[1][0].a[0].a[1] == "shape" and tm.is_const(zu.a[1][0].a[1], dim) and any(x.op == "call" and call_name(x) == "segment._contingency_matrix" for x in tm.walk(zu))
+            marg = None
             if not u_ok and zu.op == "call" and call_name(zu) == "np.log2" and zu.a[1][0].op == "sub" and zu.a[1][0].a[0].op == "attr" and zu.a[1][0].a[0].a[1] == "shape" and tm.is_const(zu.a[1][0].a[1], 0):
-                # length of the marginal over axis k of the contingency table = its dimension 1 - k
                 marg = zu.a[1][0].a[0].a[0]
+            elif not u_ok and zu.op == "call" and call_name(zu) == "np.log2" and zu.a[1][0].op == "call" and call_name(zu.a[1][0]) == "builtins.len" and len(zu.a[1][0].a[1]) == 1:
+                marg = zu.a[1][0].a[1][0]  # len(marginal)
+            if marg is not None:
+                # length of the marginal over axis k of the contingency table = its dimension 1 - k
                 sums = [x for x in tm.walk(marg) if x.op == "call" and call_name(x) == "np.sum" and x.a[1] and any(y.op == "call" and call_name(y) == "segment._contingency_matrix" for y in tm.walk(x.a[1][0]))]
                 others = [x for x in tm.walk(marg) if x.op == "call" and call_name(x) not in ("np.sum", "segment._contingency_matrix", "builtins.float", "builtins.len", "util.index_labels", "util.intervals_to_samples", "astype")]
                 if len(sums) == 1 and not others and marg.op in ("call", "bin"):
